@@ -863,6 +863,9 @@ PROPS["C03"] = dict(
     cap=dict(quick=600, thorough=900), mem_gb=18, jobs=3,
     harnesses=[
         _vm("c03", "c03_endless_loop", dispatches=6, bounds="[Goto 0] under budget 1..=5"),
+        _vm("c03", "c03_run_function_draws_on_the_run_budget", "x", dispatches=4,
+            bounds="Vm::run_function on [ScalarNil][Return] with 5..=8 instructions left of 64: the remaining budget afterwards is at most R - executed",
+            limits={r"vm::Vm::<.*>::run_function$#*": 3}),
         _vm("c03", "c03_run_function_budget", "x", dispatches=5,
             bounds="Vm::run_function on an endless script function with 1..=3 instructions left of a budget of 4",
             limits={r"vm::Vm::<.*>::run_function$#*": 3}),
